@@ -104,7 +104,8 @@ recLoop:
 
 		// We ignore encodings we don't understand.
 		var val string
-		if platformID == 3 && encodingID == 1 { // Windows, Unicode BMP
+		if platformID == 3 && (encodingID == 1 || encodingID == 10) {
+			// Windows, Unicode BMP or full repertoire: both are UTF-16BE
 			val = utf16Decode(nameBytes)
 		} else if platformID == 1 && encodingID == 0 { // Macintosh, Roman
 			val = mac.Decode(nameBytes)
